@@ -10,6 +10,7 @@ import (
 	"runtime"
 	"sort"
 	"strings"
+	"sync"
 	"sync/atomic"
 	"testing"
 	"time"
@@ -178,18 +179,28 @@ func (d c17Del) Build() (influxdb.Predicate, influxql.Expr, error) {
 }
 
 // Apply performs the delete on the reference model; returns how many cells it removed.
-func (d c17Del) Apply(w *c17World, m *sk.Model) int {
+func (d c17Del) Apply(w *c17World, m *sk.Model) int { return d.ApplyHit(w, m, nil) }
+
+// ApplyHit additionally tells hit which (series, shard group) lost at least one cell.
+func (d c17Del) ApplyHit(w *c17World, m *sk.Model, hit func(series string, group int)) int {
 	n := 0
 	for skey, fs := range m.S {
 		s := w.ByKey[skey]
 		if d.Expr != nil && !d.Expr.Eval(s.Meas, s.Tags, "") {
 			continue
 		}
+		gs := map[int]bool{}
 		for _, f := range fs {
 			for t := range f.P {
 				if t >= d.Min && t <= d.Max {
 					n++
+					gs[int((t-c17Base)/c17Hour)] = true
 				}
+			}
+		}
+		if hit != nil {
+			for g := range gs {
+				hit(skey, g)
 			}
 		}
 		m.Delete(skey, d.Min, d.Max)
@@ -215,6 +226,7 @@ type c17Ctx struct {
 	skip map[c17Cell]bool  // cells whose presence is legitimately either (concurrent conflicting write)
 	bad  bool
 	once map[string]bool
+	dels map[string]int // (series, group) -> number of deletes that removed cells of it there
 }
 
 type c17Wit struct {
@@ -224,18 +236,16 @@ type c17Wit struct {
 	Detail  any      `json:"detail,omitempty"`
 }
 
+// violate reports a witness. Causes that are established findings of the unchanged tree and do
+// not make the model diverge from the engine ("soft") are reported once per case and do not end
+// the history, so that the rest of it is still checked.
 func (c *c17Ctx) violate(class string, feats map[string]string, what string, detail any, caseID string) {
-	// stale tag keys/values under the open authorizer do not disturb the rest of the history
-	soft := class == "listed_without_data" && (feats["api"] == "TagKeys" || feats["api"] == "TagValues") && feats["auth"] == "open"
-	if soft && os.Getenv("C17_NOSOFT") != "" {
+	if oc := os.Getenv("C17_CLASS"); oc != "" && !strings.Contains(oc, class) { // debugging aid
 		return
 	}
-	if oc := os.Getenv("C17_CLASS"); oc != "" && !strings.Contains(oc, class) {
-		c.bad = true
-		return
-	}
+	soft := class == "listed_without_data" && feats["cause"] != "" && !strings.Contains(feats["cause"], "unknown") && !strings.Contains(feats["cause"], "one_delete")
 	if soft {
-		k := class + feats["api"] + feats["scope"]
+		k := class + feats["cause"]
 		if c.once == nil {
 			c.once = map[string]bool{}
 		}
@@ -246,7 +256,7 @@ func (c *c17Ctx) violate(class string, feats map[string]string, what string, det
 	} else {
 		c.bad = true
 	}
-	c.r.Event("violations_"+class+"_"+feats["api"]+feats["via"]+feats["site"], 1)
+	c.r.Event("violations_"+class+"_"+feats["api"]+feats["cause"]+feats["via"]+feats["site"], 1)
 	f := map[string]string{"after": c.last}
 	for k, v := range c.feat {
 		f[k] = v
@@ -274,12 +284,12 @@ func (c *c17Ctx) filterSkip(series, field string, pts []sk.Pt) []sk.Pt {
 	return out
 }
 
-// directRead reads (series, field) through every shard's own cursor iterator, bypassing the
+// directRead reads (series, field) through the shards' own cursor iterators, bypassing the
 // index: it tells "data gone" from "data there but series not listed".
-func (c *c17Ctx) directRead(s c17Series, field string) []sk.Pt {
+func (c *c17Ctx) directRead(s c17Series, field string, groups []c17Group) []sk.Pt {
 	var out []sk.Pt
 	ctx := context.Background()
-	for _, g := range c.env.Groups() {
+	for _, g := range groups {
 		sh := c.env.TS.Shard(g.ShardID)
 		if sh == nil {
 			continue
@@ -299,29 +309,79 @@ func (c *c17Ctx) directRead(s c17Series, field string) []sk.Pt {
 	return out
 }
 
-// check compares everything readable and everything listed with the model.
-func (c *c17Ctx) check(caseID string) {
-	r, env, m := c.r, c.env, c.m
-	// 1. points, through the bucket's read path
-	rows, err := env.ReadFilter(-1<<63, 1<<63-1, nil)
+// tsmHasSeries reports whether a TSM file of one of the shards still carries an index key of the
+// series (observation used to name the cause of a stale listing).
+func (c *c17Ctx) tsmHasSeries(seriesKey string, groups []c17Group) bool {
+	for _, g := range groups {
+		sh := c.env.TS.Shard(g.ShardID)
+		if sh == nil {
+			continue
+		}
+		eng, err := sh.Engine()
+		if err != nil {
+			continue
+		}
+		for _, f := range eng.(*tsm1.Engine).FileStore.Files() {
+			n := f.KeyCount()
+			for i := f.Seek([]byte(seriesKey)); i < n; i++ {
+				k, _ := f.KeyAt(i)
+				sk, _ := tsm1.SeriesAndFieldFromCompositeKey(k)
+				if string(sk) == seriesKey {
+					return true
+				}
+				if string(sk) > seriesKey {
+					break
+				}
+			}
+		}
+	}
+	return false
+}
+
+// undeletedTrigger names the observable trigger of a delete that left covered points behind.
+func (c *c17Ctx) undeletedTrigger(skey string) string {
+	if c.feat["mode"] == "string" && strings.Contains(c.feat["shape"], "meas_neq") {
+		return "user_path_measurement_neq"
+	}
+	for other := range c.w.ByKey {
+		// composite TSM keys are series key + "#!~#" + field: a sibling series whose key continues
+		// with a byte below '#' sorts between this series' key and its field keys
+		if len(other) > len(skey) && strings.HasPrefix(other, skey) && other[len(skey)] < '#' {
+			return "sibling_series_key_sorts_before_field_separator"
+		}
+	}
+	return "unknown"
+}
+
+// checkPoints compares what a filter read over [lo,hi) returns with the model.
+func (c *c17Ctx) checkPoints(caseID, scope string, lo, hi int64, groups []c17Group) {
+	r, m := c.r, c.m
+	rows, err := c.env.ReadFilter(lo, hi, nil)
 	if err != nil {
 		c.violate("read_error", nil, err.Error(), nil, caseID)
 		return
+	}
+	mlo, mhi := lo, hi-1
+	if lo < sk.MinT {
+		mlo = sk.MinT
+	}
+	if hi > sk.MaxT {
+		mhi = sk.MaxT
 	}
 	got := map[[2]string][]sk.Pt{}
 	for _, row := range rows {
 		k := [2]string{row.Series, row.Field}
 		if len(row.Pts) > 0 && len(got[k]) > 0 {
-			c.violate("series_returned_twice", nil, fmt.Sprintf("%s field %q", row.Series, row.Field), nil, caseID)
+			c.violate("series_returned_twice", map[string]string{"scope": scope}, fmt.Sprintf("%s field %q", row.Series, row.Field), nil, caseID)
 		}
 		got[k] = append(got[k], row.Pts...)
 	}
 	for _, skey := range m.SeriesKeys() {
 		for _, f := range m.Fields(skey) {
-			want := c.filterSkip(skey, f, m.Read(skey, f, sk.MinT, sk.MaxT, true))
+			want := c.filterSkip(skey, f, m.Read(skey, f, mlo, mhi, true))
 			have := c.filterSkip(skey, f, got[[2]string{skey, f}])
 			delete(got, [2]string{skey, f})
-			r.Event("series_field_reads", 1)
+			r.Event("series_field_reads_"+scope, 1)
 			d := sk.Diff(want, have)
 			if d == "" {
 				continue
@@ -346,25 +406,89 @@ func (c *c17Ctx) check(caseID string) {
 			}
 			switch {
 			case extra > 0:
-				c.violate("matching_points_not_deleted", nil, fmt.Sprintf("%s field %q: %d point(s) the delete covers are still readable", skey, f, extra), d, caseID)
+				c.violate("matching_points_not_deleted", map[string]string{"scope": scope, "trigger": c.undeletedTrigger(skey)}, fmt.Sprintf("%s field %q: %d point(s) the delete covers are still readable", skey, f, extra), d, caseID)
 			case lost > 0:
 				via := "data_gone"
-				if dp := c.filterSkip(skey, f, c.directRead(c.w.ByKey[skey], f)); sk.Diff(want, dp) == "" {
+				var dp []sk.Pt
+				for _, p := range c.filterSkip(skey, f, c.directRead(c.w.ByKey[skey], f, groups)) {
+					if p.T >= mlo && p.T <= mhi {
+						dp = append(dp, p)
+					}
+				}
+				if sk.Diff(want, dp) == "" {
 					via = "data_present_series_not_indexed"
 				}
-				c.violate("other_points_unreadable", map[string]string{"via": via}, fmt.Sprintf("%s field %q: %d point(s) no delete covers are not readable", skey, f, lost), d, caseID)
+				c.violate("other_points_unreadable", map[string]string{"via": via, "scope": scope}, fmt.Sprintf("%s field %q: %d point(s) no delete covers are not readable (%s)", skey, f, lost, via), d, caseID)
 			default:
-				c.violate("wrong_value_read", nil, fmt.Sprintf("%s field %q", skey, f), d, caseID)
+				c.violate("wrong_value_read", map[string]string{"scope": scope}, fmt.Sprintf("%s field %q", skey, f), d, caseID)
 			}
+			return
 		}
 	}
 	for k, pts := range got {
 		if pts = c.filterSkip(k[0], k[1], pts); len(pts) > 0 {
-			c.violate("matching_points_not_deleted", map[string]string{"series": "fully_deleted_or_unknown"}, fmt.Sprintf("%s field %q returns %s but the model holds nothing", k[0], k[1], sk.FmtPts(pts)), nil, caseID)
+			c.violate("matching_points_not_deleted", map[string]string{"scope": scope, "series": "emptied_or_unknown"}, fmt.Sprintf("%s field %q returns %s but the model holds nothing", k[0], k[1], sk.FmtPts(pts)), nil, caseID)
+			return
 		}
 	}
-	// 2. metadata: listed iff at least one remaining point (whole bucket, and each shard alone)
+}
+
+type c17Listing struct {
+	Meas, Keys, Vals, Series []string
+}
+
+func (c *c17Ctx) list(auth query.Authorizer, ids []uint64, withMeas bool, keyExpr *c17Expr) (l c17Listing, api string, err error) {
+	ctx := context.Background()
+	if withMeas {
+		names, err := c.env.TS.MeasurementNames(ctx, auth, c.env.DB, nil)
+		if err != nil {
+			return l, "MeasurementNames", err
+		}
+		for _, n := range names {
+			l.Meas = append(l.Meas, string(n))
+		}
+	}
+	tks, err := c.env.TS.TagKeys(ctx, auth, ids, nil)
+	if err != nil {
+		return l, "TagKeys", err
+	}
+	for _, tk := range tks {
+		for _, k := range tk.Keys {
+			l.Keys = append(l.Keys, tk.Measurement+"\x00"+k)
+		}
+	}
+	tvs, err := c.env.TS.TagValues(ctx, auth, ids, keyExpr.Influx())
+	if err != nil {
+		return l, "TagValues", err
+	}
+	for _, tv := range tvs {
+		for _, kv := range tv.Values {
+			l.Vals = append(l.Vals, tv.Measurement+"\x00"+kv.Key+"\x00"+kv.Value)
+		}
+	}
+	l.Series, err = c.env.SeriesKeys(auth, ids, nil)
+	return l, "Series", err
+}
+
+// check compares everything readable and everything listed with the model.
+func (c *c17Ctx) check(caseID string) {
+	r, env, m := c.r, c.env, c.m
 	groups := env.Groups()
+	// 1. points through the bucket's read path: whole bucket, and each shard group's window alone
+	c.checkPoints(caseID, "bucket", -1<<63, 1<<63-1, groups)
+	if len(groups) > 1 {
+		for _, g := range groups {
+			if c.bad {
+				return
+			}
+			// [Start, End-1): a window ending at End would also select the next shard group
+			c.checkPoints(caseID, "single_shard", g.Start, g.End-1, []c17Group{g})
+		}
+	}
+	if c.bad {
+		return
+	}
+	// 2. metadata: listed iff at least one remaining point (whole bucket, and each shard alone)
 	scopes := [][]c17Group{groups}
 	if len(groups) > 1 {
 		for _, g := range groups {
@@ -380,48 +504,41 @@ func (c *c17Ctx) check(caseID string) {
 			keyExpr.Kids = append(keyExpr.Kids, c17Cmp("_tagKey", "=", k))
 		}
 	}
-	ctx := context.Background()
+	undecided := func(series string) bool {
+		for cell := range c.skip {
+			if cell.Series == series {
+				return true
+			}
+		}
+		return false
+	}
+	names := func(set map[string]bool) (meas, keys, vals map[string]bool) {
+		meas, keys, vals = map[string]bool{}, map[string]bool{}, map[string]bool{}
+		for skey := range set {
+			s := c.w.ByKey[skey]
+			meas[s.Meas] = true
+			for k, v := range s.Tags {
+				keys[s.Meas+"\x00"+k] = true
+				vals[s.Meas+"\x00"+k+"\x00"+v] = true
+			}
+		}
+		return
+	}
 	for si, sc := range scopes {
 		scope := "bucket"
 		if si > 0 {
 			scope = "single_shard"
 		}
 		live := c17Live(m, sc)
-		if len(c.skip) > 0 {
-			// a series whose liveness hinges on an either-cell is not judged
-			for cell := range c.skip {
-				delete(live, cell.Series)
-			}
-		}
-		undecided := func(series string) bool {
-			for cell := range c.skip {
-				if cell.Series == series {
-					return true
-				}
-			}
-			return false
-		}
-		wantMeas, wantKeys, wantVals := map[string]bool{}, map[string]bool{}, map[string]bool{}
-		for skey := range live {
-			s := c.w.ByKey[skey]
-			wantMeas[s.Meas] = true
-			for k, v := range s.Tags {
-				wantKeys[s.Meas+"\x00"+k] = true
-				wantVals[s.Meas+"\x00"+k+"\x00"+v] = true
-			}
-		}
-		mayMeas, mayKeys, mayVals, maySer := map[string]bool{}, map[string]bool{}, map[string]bool{}, map[string]bool{}
+		maySer := map[string]bool{}
 		for skey := range m.S {
-			if undecided(skey) {
-				s := c.w.ByKey[skey]
+			if undecided(skey) { // liveness hinges on an either-cell: not judged
+				delete(live, skey)
 				maySer[skey] = true
-				mayMeas[s.Meas] = true
-				for k, v := range s.Tags {
-					mayKeys[s.Meas+"\x00"+k] = true
-					mayVals[s.Meas+"\x00"+k+"\x00"+v] = true
-				}
 			}
 		}
+		wantMeas, wantKeys, wantVals := names(live)
+		mayMeas, mayKeys, mayVals := names(maySer)
 		ids := env.ShardIDs(sc)
 		// the open authorizer takes index-only short cuts; an authorizer that allows every series
 		// takes the per-series paths. Both must list exactly the live names.
@@ -429,63 +546,104 @@ func (c *c17Ctx) check(caseID string) {
 			name string
 			a    query.Authorizer
 		}{{"open", nil}, {"allow_all", c17AllowAll{}}} {
-			cmp := func(api string, want map[string]bool, may map[string]bool, got []string) {
+			l, api, err := c.list(au.a, ids, si == 0, keyExpr)
+			if err != nil {
+				c.violate("metadata_error", map[string]string{"api": api, "auth": au.name}, err.Error(), nil, caseID)
+				return
+			}
+			// series listed although empty, with the observable cause
+			staleCause := map[string]string{}
+			_, extraSer := c17SetDiff(c17SortedKeys(live), l.Series)
+			for _, skey := range extraSer {
+				if maySer[skey] {
+					continue
+				}
+				// observable trigger: how many separate deletes emptied the series in a shard of the scope
+				// (a TSM index key survives when its points went in several non-adjacent tombstone ranges)
+				nd := 0
+				for _, g := range sc {
+					if k := c.dels[fmt.Sprintf("%s\x00%d", skey, int((g.Start-c17Base)/c17Hour))]; k > nd {
+						nd = k
+					}
+				}
+				switch {
+				case nd >= 2:
+					staleCause[skey] = "series_emptied_by_several_deletes"
+				case nd == 1:
+					staleCause[skey] = "series_emptied_by_one_delete"
+					for other := range live {
+						if strings.HasPrefix(other, skey+",") {
+							staleCause[skey] = "series_key_is_prefix_of_a_live_series_key"
+						}
+					}
+				default:
+					staleCause[skey] = "unknown"
+				}
+				if c.tsmHasSeries(skey, sc) {
+					r.Event("stale_series_tsm_key_still_present", 1)
+				}
+			}
+			staleMeas, staleKeys, staleVals := map[string]string{}, map[string]string{}, map[string]string{}
+			for skey, cause := range staleCause {
+				s := c.w.ByKey[skey]
+				staleMeas[s.Meas] = cause
+				for k, v := range s.Tags {
+					staleKeys[s.Meas+"\x00"+k] = cause
+					staleVals[s.Meas+"\x00"+k+"\x00"+v] = cause
+				}
+			}
+			cmp := func(api string, want, may map[string]bool, stale map[string]string, got []string) {
 				r.Event("metadata_compared_"+api, 1)
 				missing, extra := c17SetDiff(c17SortedKeys(want), got)
-				var ex []string
+				byCause := map[string][]string{}
 				for _, x := range extra {
-					if !may[x] {
-						ex = append(ex, x)
+					if may[x] {
+						continue
 					}
+					cause := "unknown"
+					if sc, ok := stale[x]; ok {
+						cause = sc
+						if api != "Series" {
+							cause = "series_listed_without_data:" + sc
+						}
+					} else if au.name == "open" && (api == "TagKeys" || api == "TagValues") {
+						// no listed series carries the name: it comes from the index-only path
+						cause = "open_authorizer_lists_index_entry_without_series"
+					} else if api == "TagKeys" || api == "TagValues" {
+						// per-series path: is a dropped series still reachable through a tag-value lookup?
+						parts := strings.Split(x, "\x00")
+						vals := c.w.Vals[parts[1]]
+						if len(parts) == 3 {
+							vals = []string{parts[2]}
+						}
+						for _, v := range vals {
+							ss, _ := env.SeriesKeys(au.a, ids, c17Cmp(parts[1], "=", v).Influx())
+							for _, skey := range ss {
+								if !live[skey] && !maySer[skey] && c.w.ByKey[skey].Meas == parts[0] {
+									cause = "dropped_series_still_reachable_by_tag_value"
+								}
+							}
+						}
+					}
+					byCause[cause] = append(byCause[cause], x)
 				}
-				if len(ex) > 0 {
-					c.violate("listed_without_data", map[string]string{"api": api, "scope": scope, "auth": au.name}, fmt.Sprintf("%s lists %q although no point of it remains", api, ex), map[string]any{"listed": got, "live": c17SortedKeys(want)}, caseID)
+				for cause, ex := range byCause {
+					c.violate("listed_without_data", map[string]string{"api": api, "scope": scope, "auth": au.name, "cause": cause},
+						fmt.Sprintf("%s lists %q although no point of it remains", api, ex), map[string]any{"listed": got, "live": c17SortedKeys(want), "shards": ids}, caseID)
 				}
 				if len(missing) > 0 {
-					c.violate("not_listed_with_data", map[string]string{"api": api, "scope": scope, "auth": au.name}, fmt.Sprintf("%s omits %q although points remain", api, missing), map[string]any{"listed": got, "live": c17SortedKeys(want)}, caseID)
+					c.violate("not_listed_with_data", map[string]string{"api": api, "scope": scope, "auth": au.name},
+						fmt.Sprintf("%s omits %q although points remain", api, missing), map[string]any{"listed": got, "live": c17SortedKeys(want), "shards": ids}, caseID)
 				}
 			}
+			cmp("Series", live, maySer, staleCause, l.Series)
 			if si == 0 {
-				names, err := env.TS.MeasurementNames(ctx, au.a, env.DB, nil)
-				if err != nil {
-					c.violate("metadata_error", map[string]string{"api": "MeasurementNames"}, err.Error(), nil, caseID)
-				} else {
-					var g []string
-					for _, n := range names {
-						g = append(g, string(n))
-					}
-					cmp("MeasurementNames", wantMeas, mayMeas, g)
-				}
+				cmp("MeasurementNames", wantMeas, mayMeas, staleMeas, l.Meas)
 			}
-			tks, err := env.TS.TagKeys(ctx, au.a, ids, nil)
-			if err != nil {
-				c.violate("metadata_error", map[string]string{"api": "TagKeys"}, err.Error(), nil, caseID)
-			} else {
-				var g []string
-				for _, tk := range tks {
-					for _, k := range tk.Keys {
-						g = append(g, tk.Measurement+"\x00"+k)
-					}
-				}
-				cmp("TagKeys", wantKeys, mayKeys, g)
-			}
-			tvs, err := env.TS.TagValues(ctx, au.a, ids, keyExpr.Influx())
-			if err != nil {
-				c.violate("metadata_error", map[string]string{"api": "TagValues"}, err.Error(), nil, caseID)
-			} else {
-				var g []string
-				for _, tv := range tvs {
-					for _, kv := range tv.Values {
-						g = append(g, tv.Measurement+"\x00"+kv.Key+"\x00"+kv.Value)
-					}
-				}
-				cmp("TagValues", wantVals, mayVals, g)
-			}
-			sks, err := env.SeriesKeys(au.a, ids)
-			if err != nil {
-				c.violate("metadata_error", map[string]string{"api": "Series"}, err.Error(), nil, caseID)
-			} else {
-				cmp("Series", live, maySer, sks)
+			cmp("TagKeys", wantKeys, mayKeys, staleKeys, l.Keys)
+			cmp("TagValues", wantVals, mayVals, staleVals, l.Vals)
+			if c.bad {
+				return
 			}
 		}
 	}
@@ -504,8 +662,8 @@ func c17History(r *vkit.Run, t *testing.T, i int) {
 	}
 	defer env.Close()
 	var ctr int64
-	w := c17NewWorld(rg, rg.Range(2, 4), 8, &ctr)
-	c := &c17Ctx{r: r, env: env, w: w, m: sk.NewModel()}
+	w := c17NewWorld(rg, vkit.Pick(rg, []int{2, 2, 3, 3, 4}), 8, &ctr)
+	c := &c17Ctx{r: r, env: env, w: w, m: sk.NewModel(), dels: map[string]int{}}
 	nOps := rg.Range(8, 18)
 	effective, partial, writesAfterDelete := 0, 0, 0
 	seenDelete := false
@@ -516,6 +674,10 @@ func c17History(r *vkit.Run, t *testing.T, i int) {
 			pts, recs := w.Batch(rg, rg.Range(1, 14), c.m)
 			c.hist = append(c.hist, fmt.Sprintf("write %v", recs))
 			if err := env.Write(pts); err != nil {
+				if err.Error() == "timeout" {
+					r.Inconclusive("write_timeout_under_load")
+					return
+				}
 				c.last = "write"
 				c.violate("write_error", nil, err.Error(), nil, caseID)
 				return
@@ -538,7 +700,7 @@ func c17History(r *vkit.Run, t *testing.T, i int) {
 					before += len(f.P)
 				}
 			}
-			n := d.Apply(w, c.m)
+			n := d.ApplyHit(w, c.m, func(series string, g int) { c.dels[fmt.Sprintf("%s\x00%d", series, g)]++ })
 			mes := "<nil>"
 			if me != nil {
 				mes = me.String()
@@ -567,9 +729,8 @@ func c17History(r *vkit.Run, t *testing.T, i int) {
 				if rg.Chance(2, 3) {
 					ids = append(ids, g.ShardID)
 					if err := env.Snapshot(g.ShardID); err != nil {
-						r.Inconclusive("snapshot_failed")
-						t.Logf("snapshot: %v", err)
-						return
+						r.Event("snapshot_refused", 1) // e.g. "snapshots disabled" on a shard the store just idled
+						continue
 					}
 				}
 			}
@@ -636,9 +797,12 @@ func c17Schedule(r *vkit.Run, t *testing.T, i int) {
 	}
 	defer env.Close()
 	var ctr int64
-	nG := rg.Range(2, 3)
+	nG := 2
+	if rg.Chance(1, 4) {
+		nG = 3
+	}
 	w := c17NewWorld(rg, nG, 6, &ctr)
-	c := &c17Ctx{r: r, env: env, w: w, m: sk.NewModel(), skip: map[c17Cell]bool{}}
+	c := &c17Ctx{r: r, env: env, w: w, m: sk.NewModel(), skip: map[c17Cell]bool{}, dels: map[string]int{}}
 	g := rg.Intn(nG)
 	gStart := c17Base + int64(g)*c17Hour
 	// the delete range lies strictly inside group g: offsets 1..1800e9 (+-)
@@ -869,9 +1033,9 @@ func c17Stress(r *vkit.Run, t *testing.T, i int) {
 	}
 	defer env.Close()
 	var ctr int64
-	nG := rg.Range(2, 3)
+	nG := 2
 	w := c17NewWorld(rg, nG, 6, &ctr)
-	c := &c17Ctx{r: r, env: env, w: w, m: sk.NewModel()}
+	c := &c17Ctx{r: r, env: env, w: w, m: sk.NewModel(), dels: map[string]int{}}
 	// deletes only cover offsets {1,2,1800e9} of a group; concurrent writers only use the other offsets
 	insideOff := []int64{1, 2, 1800e9}
 	outsideOff := []int64{0, c17Hour - 2, c17Hour - 1}
@@ -929,7 +1093,8 @@ func c17Stress(r *vkit.Run, t *testing.T, i int) {
 			var pts []models.Point
 			for j := 0; j < rg.Range(2, 6); j++ {
 				s := vkit.Pick(rg, w.Series)
-				tm := c17Base + int64(rg.Intn(nG))*c17Hour + vkit.Pick(rg, outsideOff)
+				// each writer owns its offsets: no two writers ever write the same cell
+				tm := c17Base + int64(rg.Intn(nG))*c17Hour + vkit.Pick(rg, [][]int64{outsideOff[:2], outsideOff[2:]}[wi])
 				p, _ := w.Point(rg, s, tm, false, c.m)
 				pts = append(pts, p)
 			}
@@ -999,25 +1164,47 @@ func TestC17(t *testing.T) {
 		"the _measurement terms handed to the engine next to the predicate are derived as http/delete_handler.go decodeDeleteRequest does")
 	r.Trust("verifhook points in tsdb/engine/tsm1/engine.go deleteSeriesRange")
 	nHist := r.N(60, 1500)
-	nSched := r.N(24, 400)
-	nStress := r.N(8, 150)
+	nSched := r.N(20, 400)
+	nStress := r.N(6, 120)
+	phase := map[string]float64{}
 	only := os.Getenv("VERIF_ONLY") // e.g. "hist:16": run one case (debugging / replay)
 	sel := func(kind string, i int) bool { return only == "" || only == fmt.Sprintf("%s:%d", kind, i) }
+	t0 := time.Now()
+	defer func() { r.Extra("phase_seconds", phase) }()
+	// histories own their engine and set no hooks: run them on a few workers
+	var wg sync.WaitGroup
+	jobs := make(chan int)
+	for k := 0; k < 4; k++ {
+		wg.Add(1)
+		go func() {
+			defer wg.Done()
+			for i := range jobs {
+				c17History(r, t, i)
+			}
+		}()
+	}
 	for i := 0; i < nHist; i++ {
 		if sel("hist", i) {
-			c17History(r, t, i)
+			jobs <- i
 		}
 	}
+	close(jobs)
+	wg.Wait()
+	phase["histories"] = time.Since(t0).Seconds()
+	t0 = time.Now()
 	for i := 0; i < nSched; i++ {
 		if sel("sched", i) {
 			c17Schedule(r, t, i)
 		}
 	}
+	phase["schedules"] = time.Since(t0).Seconds()
+	t0 = time.Now()
 	for i := 0; i < nStress; i++ {
 		if sel("stress", i) {
 			c17Stress(r, t, i)
 		}
 	}
+	phase["stress"] = time.Since(t0).Seconds()
 	hh := map[string]uint64{}
 	for _, h := range c17Hooks {
 		hh[h] = verifhook.Count(h)
